@@ -277,7 +277,7 @@ theorem emitOne_error {r : PrvReg} {lv : Option Value} {v : Value} {x : Err} (hd
     * `EmitInv` holds again, with the rows updated by `L`. -/
 theorem Bay.emit_step {ok : Nat → Prop} {b b1 bF : Bay} {em : List (Nat × Value)} {regs : List PrvReg}
     {lvs : List (Option Value)} {tvs : List Int}
-    (wf : b.WF) (hcl : b.Clean) (hw : Bay.Writes ok b b1) (hp : b1.propagate = .ok (bF, em))
+    (wf : b.WF) (hw : Bay.Writes ok b b1) (hp : b1.propagate = .ok (bF, em))
     (hinv : EmitInv regs lvs tvs b) (hfl : ∀ r ∈ regs, DupOk r.flags ∧ NoZero r.flags) :
     ((∃ x, b.viewRecs regs bF = .error x) ↔ (∃ y, b1.propagateP regs lvs = .error y)) ∧
     (∀ y, b1.propagateP regs lvs = .error y → y = .prvZero) ∧
